@@ -11,7 +11,7 @@ sink-stack events collected by class-level wrappers (used for the model labels o
 spec = {
   'stack': 'thrift' | 'mux', 'tie': 'fifo'|'lifo', 'timeout': <ticks>, 'open_timeout0': bool,
   'resurrector': {'initial': <sec>, 'max': <sec>},  'pool': {'min':, 'max':, 'maxq':},
-  'endpoints': [{'port': int, 'reach': [[tick, 'up'|'down'|'hang'], ...], 'plan': {...}, 'default': {...}, 'ping': ..., 'connect_delay': ticks,
+  'endpoints': [{'port': int, 'reach': [[tick, 'up'|'down'|'hang'], ...], 'plan': {...}, 'default': {...}, 'ping': ..., 'connect_delay': ticks, 'send_delay': ticks,
                  'member': bool (in the initial server set, default True)}],
   'faults': [{'op': 'send'|'recv'|'connect', 'nth': int, 'what': 'exc'|'eof'|'refuse'|'hang', 'port': int|None}],
   'events': [{'at': tick, 'op': 'call', 'id': str, 'timeout': ticks|None} | {'at':, 'op': 'join'|'leave', 'port':} |
@@ -270,6 +270,7 @@ def _run(spec, w):
       kw['ping'] = ep.get('ping', True)
     srv = cls(ep['port'], reachable=_reach_fn(ep.get('reach')), plan=ep.get('plan'), default=ep.get('default'), **kw)
     srv.connect_delay = ep.get('connect_delay', 0)
+    srv.send_delay = ep.get('send_delay', 0)
     w.add_server(srv)
     servers[ep['port']] = srv
     members[ep['port']] = ScalesUriParser.Server(Endpoint('h', ep['port']))
@@ -344,7 +345,17 @@ def _run(spec, w):
       try:
         to = e.get('timeout')
         arg = cid + '|' + e.get('pad', '')
-        if to:
+        if e.get('direct') and not closed[0]:
+          # MessageDispatcher.StaticDispatchMessage (public static entry): the message goes down the sink chain at
+          # once, also while the balancer is still opening (the dispatcher's own wait-for-open is bypassed)
+          from scales.dispatch import MessageDispatcher
+          from scales.message import MethodCallMessage
+          tsec = (to or spec.get('timeout', 64)) * V.TICK
+          msg = MethodCallMessage(Hello.Iface, 'hi', (arg,), {})
+          ar = MessageDispatcher.StaticDispatchMessage(client._dispatcher.next_sink, None, w.clock.now, w.clock.now + tsec, msg)
+          rec['opened'] = True
+          rec['direct'] = True
+        elif to:
           ar = client._dispatcher.DispatchMethodCall('hi', (arg,), {}, timeout=to * V.TICK)
         else:
           ar = client.hi_async(arg)
@@ -385,7 +396,9 @@ def _run(spec, w):
   for port, srv in servers.items():
     trace['servers'][str(port)] = {
         'requests': [{'at': ticks(r['time']), 'conn': r['conn'], 'id': r['arg'].split('|')[0], 'method': r['method'],
-                      'tag': r.get('tag'), 'seq': r.get('seq'), 'arg': r['arg']} for r in srv.requests],
+                      'tag': r.get('tag'), 'seq': r.get('seq'), 'arg': r['arg'],
+                      'wseq': r.get('wseq') if r.get('wseq') is not None else r.get('seq'),
+                      'wat': ticks(r['wtime']) if r.get('wtime') is not None else ticks(r['time'])} for r in srv.requests],
         'discards': [{'at': ticks(d['time']), 'conn': d['conn'], 'named': d['named'], 'frame_tag': d['frame_tag'],
                       'seq': d.get('seq')} for d in srv.discards],
         'replies': [{'at': ticks(r['time']), 'conn': r['conn'], 'id': r['id'], 'tag': r['tag'], 'seq': r['seq']} for r in srv.replies],
